@@ -1288,7 +1288,7 @@ def replay_one(ctx, pid):
         print('[%s] replay file has no operation history (%s)' % (pid, rp.get('broken')))
         return
     im = ctx.harness('drive_store.py', {'histories': [ops]})['histories'][0]
-    if any(o.get('wfail') for o in ops):
+    if any(o.get('wfail') or o.get('fault') for o in ops):
         hits = [x for x in write_fault_oracle(ops, im)[0] + c07_fault_oracle(ops, im)
                 if x['property'] == pid]
         ctx.count(evaluations=len(ops), nontrivial_keys=[('replay', json.dumps(ops)), 'x'])
@@ -1335,6 +1335,13 @@ def write_fault_histories(ctx, n, tag='wfault'):
     # a refused write, then a stop between rename and table write, then the retry
     u = dict(head, op='upd', vals=[['v', [1, 0, 0], 1]], crash=None)
     hs.append([dict(u, wfail=4), dict(u, crash=6), u, dict(u, run=3)] + tail(1))
+    # the symmetric faults the process survives: every step of an update (incl.
+    # the rename into the store and the primary-table write) refused with
+    # OSError, then the retry, then the same content under another run
+    for k in range(1, 7):
+        hs.append(([pre] if k % 2 else []) +
+                  [dict(u, crash=k, fault='oserror'), u, dict(u, run=3),
+                   dict(head, op='load', vals=[['v', [1, 0, 0]]])] + tail(k))
     for i in range(n):
         rng = random.Random('%s:C08:%s:%d' % (ctx.seed, tag, i))
         g = Gen(rng, small=True, focus='C08')
@@ -1372,6 +1379,9 @@ def write_fault_histories(ctx, n, tag='wfault'):
             if o is not None:
                 if o['op'] in ('upd', 'reg') and rng.random() < 0.5:
                     o = dict(o, alg='later%d' % rng.randint(0, 2))
+                if o['op'] == 'upd' and rng.random() < 0.3:
+                    # a step of the update is refused with OSError, the process survives
+                    o = dict(o, crash=rng.randint(1, 6 * len(o['vals'])), fault='oserror')
                 if o['op'] == 'add':
                     o = dict(o, tn='LATER%d' % rng.randint(0, 2))
                 h.append(o)
@@ -1462,7 +1472,7 @@ def c07_fault_oracle(h, r):
                 had.append(code)
         if bad:
             hits.append({'property': 'C07', 'kind': bad[0],
-                         'fields': {'cause': 'refused-catalogue-write'},
+                         'fields': {'cause': 'fault-the-process-survives'},
                          'what': bad[1], 'ops': h[:si + 1], 'history': h})
             break
         before = ob
@@ -1534,6 +1544,8 @@ def write_fault_study(ctx, pid='C08'):
     ctx.note('write_fault_histories', {
         'histories': len(hs), 'client_calls': steps, 'writes_refused': refused,
         'refused_after_earlier_rows_of_the_call': partial,
+        'update_steps_refused_with_OSError': sum(
+            1 for h in hs for o in h if o.get('fault') == 'oserror'),
         'model': 'Model/StoreFault.v run_io_f, compared after every call (reply, refused, '
                  'prime, store, stage, indices, tables)',
         'note': 'a catalogue-table write raises OSError once, the process carries on; '
